@@ -268,7 +268,7 @@ Init ==
                                       "loop"), {}, <<so>>, pr[1], pr[2],
                                 OneStepper, ao)) : h = One(c)
        \/ \E ms \in StageOpts, ord \in StageOrders :
-             \E c \in Faulty(Mk(Shape({"foo"}, {}, "initialize"), {},
+             \E c \in Faulty(Mk(Shape({}, {}, "loop"), {},
                                 <<<<"pa_s1">>>>, "flat", "stepper",
                                 [j \in DOMAIN ord |->
                                    IF ord[j] = "pa_d"
